@@ -12,6 +12,8 @@ TB = [
     "translator (harness/translators/search.py): the three score-function bodies, passes, BestOnly.collect, calc_threshold_from_bp (search.py) and MAX_SQLITE_INT / convert_hash_to/from / the three range-clause guards (sqlite_index.py) are re-read from the source with ast on every run; anything but the known shapes fails closed",
     "hand-written model (lean/SmVerif/Model/Search.lean) of Index.find/search/prefetch/best_containment, SBT.select/find/_find_nodes/node_search, LCA_Database.select/find, SqliteIndex.find/_get_matching_sketches/_load_sketch_size, tied to /repo by the search stream (differential testing against every container type built from the same sketches)",
     "Bloom filters (Nodegraph) are abstracted to the set they answer 'present' on; SBT theorems assume the container invariant Cover (filter superset of the hashes below, 1 <= min_n_below <= size of every non-empty leaf below), which C13 proves of real trees; the real tree shape / false positives are exercised on the implementation side only (the model builds its own d-ary tree over the same leaves; by sbt_walk_eq_brute the plain results agree as multisets)",
+    "command-line tier: `sourmash search` / `sourmash prefetch` are run through the real entry point (sourmash.__main__.main(argv), argparse included) inside the adapter process, on database files written for the case; they are NOT modelled in Lean: the oracle compares every CSV row, the --save-matches / --save-matching-hashes / --save-unmatched-hashes files and the number of displayed matches with brute force, and the adapter's in-process API answer on the same files with the CSV",
+    "float(text) of a decimal threshold is taken to be correctly rounded (CPython's float()); threshold_decimal_exact then makes the float test the rational test for every decimal of <= 15 digits and sketch sizes with c*b < 2^51",
     "sqlite3, zipfile, json, csv, the file system; LCA/SQLite candidate order (Counter.most_common / ORDER BY ties) is not modelled: results are compared as multisets, best-only results as 'sub-multiset containing every maximal element'",
 ]
 AS = [
@@ -19,6 +21,8 @@ AS = [
     "prefetch float/integer equivalence (bp_threshold_exact) is proved for threshold_bp <= 2^50, scaled and query size < 2^53",
     "the indexed containers (SBT, LCA_Database, SqliteIndex) are queried as the command line does: select(ksize, moltype, num, scaled, containment) first -- that is where their refusals are documented; list-like containers are queried directly",
     "exact duplicates (same name and same hashes twice) only in the in-memory containers: what a file format stores is C10's subject; mixtures of num and scaled sketches in one list are left to C12 (select)",
+    "`sourmash search` (Jaccard) aborts with ValueError('varN <0.0!') from the ANI estimate on some small sketches: finding D16 of C17 reaching the command line; those runs are skipped and counted (coverage.oracle_stats.cli_skipped)",
+    "RevIndex is not in this build (sourmash.index.revindex needs the symbol revindex_free, absent from the library built from /repo)",
     "errors on an EMPTY indexed database (SBT.select: StopIteration; SqliteIndex.find: TypeError) and on a query that is empty after downsampling (SqliteIndex: ValueError from max()) are not documented refusals; they cannot hide a match (the answer is necessarily empty) and are accepted and counted (coverage.loud_but_empty)",
 ]
 RULE = ("one case = 0..25 sketches (shared core of hashes placed on / next to the max_hash thresholds of the scaled values in play, 2^63 and 2^64-1; "
@@ -29,7 +33,12 @@ RULE = ("one case = 0..25 sketches (shared core of hashes placed on / next to th
         "tables of 3..1000 bits, cache 1/2/unbounded, in memory or saved+loaded), LCA_Database, SqliteIndex built from the same sketches. The oracle recomputes "
         "every answer with Python sets from the sketches the implementation reports. non-trivial = some operation returned >= 2 matches and some returned "
         "fewer matches than the database holds; distinct = distinct op lists. One case in seven ('order') is a mixed-scaled list searched "
-        "in BOTH orders (coarse subjects before finer ones, and the reverse) with the same query and operations")
+        "in BOTH orders (coarse subjects before finer ones, and the reverse) with the same query and operations; one case in eight ('cli') spreads "
+        "3-9 sketches over 1-3 database files of different kinds (sig, directory, zip, manifest, SBT zip, LCA json, sqldb; sometimes the same sketch in two) "
+        "and runs `sourmash search` (--containment / --max-containment / --best-only / --threshold as decimal TEXT: repr of an occurring score = exact tie, "
+        "its 3-digit rounding, 0.08, ... / -n / --ignore-abundance / -o / --save-matches) and `sourmash prefetch` (--threshold-bp on, half a bp and one bp "
+        "around occurring overlaps, -o, --save-matches, --save-unmatched-hashes, --save-matching-hashes). The oracle compares thresholds as the code does "
+        "(binary64 `score >= threshold`); exact ties are generated on purpose (coverage.oracle_stats.tie_threshold_ops)")
 
 
 def extra(chk, pkg):
@@ -40,6 +49,6 @@ def extra(chk, pkg):
 
 
 if __name__ == "__main__":
-    streamlib.run_property("C06", search, ["mixed", "homog", "num", "edge", "homog", "mixed", "order"], search.oracle,
-                           int(os.environ.get("VERIF_C06_N", "3000")), 60000, TB, AS, RULE,
+    streamlib.run_property("C06", search, ["mixed", "homog", "num", "edge", "homog", "mixed", "order", "cli"], search.oracle,
+                           int(os.environ.get("VERIF_C06_N", "3000")), 40000, TB, AS, RULE,
                            nontrivial=search.nontrivial, extra=extra)
